@@ -101,20 +101,22 @@ structure Result where
   closed : List Nat    -- connections closed again because the link could not be sent
 deriving DecidableEq, Repr
 
-def loop (env : Nat → Env) : List Route → Bool → Result
-  | [], noRoute => ⟨if noRoute then .notConnected else .notFound, [], []⟩
+/-- the route loop of `DialClient`; `total = len(ret.routes)` is what the final classification looks at:
+`if isNoRoute || len(ret.routes) > 0 { not connected } else { not found }` -/
+def loop (env : Nat → Env) (total : Nat) : List Route → Bool → Result
+  | [], noRoute => ⟨if noRoute || decide (total > 0) then .notConnected else .notFound, [], []⟩
   | r :: rs, noRoute =>
     match tryRoute r.isLocal (env r.idx) with
     | .ok => ⟨.found r.idx, [r.idx], []⟩
-    | .noDirect => let x := loop env rs true; ⟨x.outcome, r.idx :: x.tried, x.closed⟩
-    | .hard c => let x := loop env rs noRoute
+    | .noDirect => let x := loop env total rs true; ⟨x.outcome, r.idx :: x.tried, x.closed⟩
+    | .hard c => let x := loop env total rs noRoute
                  ⟨x.outcome, r.idx :: x.tried, if c then r.idx :: x.closed else x.closed⟩
 
 def dialClient (slots : List Slot) (env : Nat → Env) : Result :=
   match lookup slots with
   | .notFound => ⟨.notFound, [], []⟩
   | .failed => ⟨.lookupFailed, [], []⟩
-  | .routes rs => loop env rs false
+  | .routes rs => loop env rs.length rs false
 
 /-! ### remote side: `handleProxyConn` -/
 
